@@ -5,7 +5,7 @@ from typing import Any, Dict, List, Optional, Tuple
 
 from ..cfg import cfg_of
 from ..consteval import ConstEval, Unknown
-from ..flow import Sym, fpaths, attr_effects
+from ..flow import Sym, fpaths, attr_effects, allfacts
 from ..model import FuncInfo, Program, attr_chain, norm, walk_no_nested
 from ..report import Checker
 
@@ -87,7 +87,7 @@ def forward_sites_check(ch: Checker, rule: str, want_via: bool, via_rule: Option
                 if kw.get('for_proxy') not in (None, 'False'):
                     per_site['problems'].append(('build(for_proxy=%s): the origin receives an absolute-form target' % kw.get('for_proxy'), p.describe(22)))
                 if want_via and not via:
-                    tunnel = dict(p.facts(idx)).get('self.request.is_https_tunnel')
+                    tunnel = allfacts(p, idx).get('self.request.is_https_tunnel')
                     per_site['via_missing'].setdefault(tunnel, p.describe(22))
         if not is_forward:
             continue
